@@ -650,6 +650,49 @@ func monotonicity(seed int64, cfg *config, ws *po.WeightedSelector, res *result,
 			}
 		}
 	}
+	// dense sweeps: each metric walks a fine grid from bad to good with everything else fixed, so that a step of the
+	// weight function at ANY point of the range (thresholds of the normalisation and of the strategy adjustments) lies
+	// between two neighbouring grid points
+	{
+		stake := int64(logU(r, 1, 1e15))
+		total := stake + int64(logU(r, 1, 2.9e16))
+		sc, tc := sdk.NewCoin("ulava", sdk.NewInt(stake)), sdk.NewCoin("ulava", sdk.NewInt(total))
+		av, lat, syn := parseDec(decStr(0.9+0.1*r.Float64())), parseDec(decStr(logU(r, 1e-3, 5))), parseDec(decStr(logU(r, 1e-2, 300)))
+		if r.Intn(3) == 0 {
+			av, lat, syn = parseDec(anyField(0)), parseDec(anyField(1)), parseDec(anyField(2))
+		}
+		sweep := func(dim, regime string, n int, at func(i int) (*pairingtypes.QualityOfServiceReport, string), fixed map[string]any) {
+			prevW, prevL := math.NaN(), ""
+			for i := 0; i < n; i++ {
+				q, label := at(i)
+				w := ws.CalculateScore(q, sc, tc, "p")
+				if i > 0 {
+					check(dim, regime, prevL, label, prevW, w, fixed)
+				}
+				prevW, prevL = w, label
+			}
+		}
+		const nSync, nLat, nAv = 500, 460, 210
+		off := r.Float64() // the grid is shifted per configuration
+		sweep("sync-down", regimeOf(cfg.Sel.AdSyncMode), nSync, func(i int) (*pairingtypes.QualityOfServiceReport, string) {
+			v := float64(nSync-1-i)*4 + 4*off // 2000 s .. 0 s in 4 s steps
+			if i == nSync-1 {
+				v = 0
+			}
+			return &pairingtypes.QualityOfServiceReport{Availability: av, Latency: lat, Sync: parseDec(decStr(v))}, decStr(v)
+		}, map[string]any{"stake": stake, "total_stake": total, "availability": av.String(), "latency": lat.String(), "sweep": true})
+		sweep("latency-down", regimeOf(cfg.Sel.AdLatMode), nLat, func(i int) (*pairingtypes.QualityOfServiceReport, string) {
+			v := float64(nLat-1-i)*0.1 + 0.1*off // 46 s .. 0 s in 0.1 s steps
+			if i == nLat-1 {
+				v = 0
+			}
+			return &pairingtypes.QualityOfServiceReport{Availability: av, Latency: parseDec(decStr(v)), Sync: syn}, decStr(v)
+		}, map[string]any{"stake": stake, "total_stake": total, "availability": av.String(), "sync": syn.String(), "sweep": true})
+		sweep("availability-up", "threshold-rescale", nAv, func(i int) (*pairingtypes.QualityOfServiceReport, string) {
+			v := (float64(i) + off) * 0.005 // 0 .. 1.05 in 0.005 steps
+			return &pairingtypes.QualityOfServiceReport{Availability: parseDec(decStr(v)), Latency: lat, Sync: syn}, decStr(v)
+		}, map[string]any{"stake": stake, "total_stake": total, "latency": lat.String(), "sync": syn.String(), "sweep": true})
+	}
 	// stake up with the OTHER providers' stakes fixed (so the total grows with it), through CalculateProviderScores
 	cands := []string{}
 	for _, a := range all {
